@@ -49,6 +49,16 @@ fn one_call(p: &mut Pair, op: &FeOp, res: &Resources, reply_ack: bool, need_repl
     // a call the API refuses puts nothing on the wire: it is outside "arguments the API accepts"
     if r.is_err() && pending_bytes(p.server.fd) == 0 && p.server.served_ok.get() == served_before && p.server.alive.get() && p.server.log_len() == 0 {
         rep.evaluations += 1;
+        // the statement lists what the API rejects locally (queue index beyond the known maximum,
+        // empty / oversized region list, zero-sized region, invalid config window, un-negotiated
+        // feature; since fix a61bcd1 also bodies the server's validators reject): a call outside
+        // those classes that is refused never reaches the handler although the API ought to accept it
+        let index_ok = op.queue_index().map_or(true, |i| i < p.max_queues.min(256));
+        if sigctx.is_empty() && index_ok && op.wire_valid() {
+            rep.outcome("rejected-locally-although-acceptable");
+            rep.violation(&format!("C02:{}:rejected-locally-although-acceptable", op.name()), &format!("{:?}: every required feature is negotiated, the index is below the maximum and the arguments are valid by the protocol's rules, yet the API refused the call locally ({:?}): the handler is never invoked", op, r.as_ref().err()), ctx);
+            return true;
+        }
         rep.outcome("rejected-locally");
         return true;
     }
